@@ -1,5 +1,6 @@
 import SockModel.Drive.Common
 import SockModel.Model.Tls
+import SockModel.Model.PeerFail
 /-! Driver for C18.
 
 A transcript of `harness/scen/tls.cpp` is a flat stream of tagged events (see that file).
@@ -44,8 +45,8 @@ inductive Ev where
   | os (who : String) (e : OsEv)
   | dpoll (t : Int) (res : Int) (fds : List (String × Nat × Nat))
   | rx (who : String) (n : Nat)
-  | disc (who : String)
-  | fut (who : String) (i : Nat) (ok : Bool)
+  | disc (who : String) (why : List String)
+  | fut (who : String) (i : Nat) (res : String)
   | enq (who : String) (n : Nat)
   | other (w : List String)
 
@@ -92,8 +93,8 @@ def parseEv (w : List String) : Ev :=
     | some t, some res, some fds => .dpoll t res fds
     | _, _, _ => .other w
   | ["rx", who, n] => .rx who (n.toNat?.getD 0)
-  | "disc" :: who :: _ => .disc who
-  | "fut" :: who :: i :: r :: _ => .fut who (i.toNat?.getD 0) (r == "ok")
+  | "disc" :: who :: why => .disc who why
+  | "fut" :: who :: i :: r :: _ => .fut who (i.toNat?.getD 0) r
   | ["enq", who, n] => .enq who (n.toNat?.getD 0)
   | _ => .other w
 
@@ -211,7 +212,7 @@ def Block.add (b : Block) : Ev → Block
     | some c, .recv len _ => { b with cur := some (Block.pushBioLen c len) }
     | _, _ => b
   | .rx _ n => { b with rx := n :: b.rx }
-  | .disc _ => { b with disc := b.disc + 1 }
+  | .disc _ _ => { b with disc := b.disc + 1 }
   | _ => b
 
 /-! ### per-endpoint model state -/
@@ -219,6 +220,7 @@ def Block.add (b : Block) : Ev → Block
 structure EpSt where
   name : String
   kind : String := "basic"
+  tls : Bool := true
   driver : String := ""
   rsz : Nat := 4096
   st : St Rep RW := { g := {}, e := {}, w := {} }
@@ -267,7 +269,13 @@ def runSync (C : Cfg) (ep : EpSt) (op : String) (args : List String) (b : Block)
   | "send", [t, len] =>
     match t.toInt?, len.toNat? with
     | some t, some len =>
-      let (o, s1) := sendT C repWorld repEngine s0 (zeros len) t
+      let (o, s1) : Out Nat × St Rep RW :=
+        if ep.tls then sendT C repWorld repEngine s0 (zeros len) t
+        else
+          let r := PeerFail.sendT repWorld s0.w (zeros len) t
+          match r.exn with
+          | some e => (.exn e, { s0 with w := r.w })
+          | none => (.ok r.sent, { s0 with w := r.w })
       let tag := if t < 0 then "send.unlimited" else if t = 0 then "send.zero" else "send.limited"
       let cmp : Option String := match o, ret with
         | .ok n, ["n", k] => if k.toNat? == some n then none else some s!"Send returns {k}, model {n}"
@@ -282,7 +290,12 @@ def runSync (C : Cfg) (ep : EpSt) (op : String) (args : List String) (b : Block)
   | "recv", [t, size] =>
     match t.toInt?, size.toNat? with
     | some t, some size =>
-      let (o, s1) := receiveT C repWorld repEngine s0 size t
+      let (o, s1) : Out Bytes × St Rep RW :=
+        if ep.tls then receiveT C repWorld repEngine s0 size t
+        else match PeerFail.recvT repWorld s0.w size t with
+          | .got bs w' => (.ok bs, { s0 with w := w' })
+          | .nothing w' => (.ok [], { s0 with w := w' })
+          | .exn e w' => (.exn e, { s0 with w := w' })
       let tag := if t < 0 then "recv.unlimited" else if t = 0 then "recv.zero" else "recv.limited"
       let cmp : Option String := match o, ret with
         | .ok [], ["none"] => none
@@ -378,6 +391,7 @@ structure DSt where
   loopend : Option String := none
   tags : List String := []
   corr : Option String := none                   -- first correspondence problem (reported after the spec)
+  strictInit : Bool := true                      -- C18: data may only be delivered when SSL_is_init_finished
   finals : List (List String) := []
 
 def DSt.ep? (d : DSt) (n : String) : Option EpSt := d.eps.find? (·.name == n)
@@ -397,7 +411,7 @@ def runStep (C : Cfg) (d : DSt) (dname : String) (b : Block) (ret : List String)
     let asyncOn := d.eps.filter (fun e => e.kind == "async" ∧ e.driver == dname)
     let d := asyncOn.foldl (fun d ep =>
       let x : ASt Rep RW := { a := ep.a, s := ep.st }
-      let x := aQuery repEngine x
+      let x := if ep.tls then aQuery repEngine x else x
       let ep := { ep with a := x.a, st := x.s }
       let d := d.setEp ep
       match fds.find? (·.1 == ep.name) with
@@ -421,7 +435,11 @@ def runStep (C : Cfg) (d : DSt) (dname : String) (b : Block) (ret : List String)
       | some ep =>
         let s0 := loadBlock ep b
         let rev := revOf r
-        let (o, x) := aTask C repWorld repEngine ep.rsz { a := ep.a, s := s0 } rev
+        let (o, x) : Out Unit × ASt Rep RW :=
+          if ep.tls then aTask C repWorld repEngine ep.rsz { a := ep.a, s := s0 } rev
+          else
+            let (o, p) := PeerFail.pTask repWorld ep.rsz { a := ep.a, w := s0.w } rev
+            (o, { a := p.a, s := { s0 with w := p.w } })
         let newDelivered := (x.a.delivered.take (x.a.delivered.length - ep.a.delivered.length)).reverse.map (·.length)
         let tag := if rev.rd then "task.readable" else if rev.wr then (if ep.a.sendQ.isEmpty then "task.pending" else "task.writable") else "task.huperr"
         let cmp : Option String :=
@@ -457,7 +475,7 @@ def specEv (d : DSt) (e : Ev) : Except String DSt :=
     | some ep, ["n", k] =>
       let k := k.toNat?.getD 0
       if ep.recvOp ∧ k > 0 then
-        if ¬ ep.lastDoneInit then .error s!"{who}: Receive delivered {k} bytes although the engine had not finished the handshake / not answered done"
+        if d.strictInit ∧ ep.tls ∧ ¬ ep.lastDoneInit then .error s!"{who}: Receive delivered {k} bytes although the engine had not finished the handshake / not answered done"
         else if d.plain ≠ "none" then .error s!"{who}: Receive delivered {k} bytes from a peer that does not speak TLS"
         else .ok (d.setEp { ep with delivered := ep.delivered + k })
       else .ok d
@@ -467,11 +485,11 @@ def specEv (d : DSt) (e : Ev) : Except String DSt :=
     match d.ep? who with
     | some ep =>
       if n = 0 then .error s!"{who}: receive handler invoked with an empty buffer"
-      else if ¬ ep.lastDoneInit then .error s!"{who}: receive handler invoked with {n} bytes although the engine had not finished the handshake"
+      else if d.strictInit ∧ ep.tls ∧ ¬ ep.lastDoneInit then .error s!"{who}: receive handler invoked with {n} bytes although the engine had not finished the handshake"
       else if d.plain ≠ "none" then .error s!"{who}: receive handler delivered {n} bytes from a peer that does not speak TLS"
       else .ok (d.setEp { ep with delivered := ep.delivered + n })
     | none => .ok d
-  | .disc who =>
+  | .disc who _ =>
     match d.ep? who with
     | some ep =>
       if ep.discSeen ≥ 1 then .error s!"{who}: disconnect handler invoked twice"
@@ -546,9 +564,26 @@ def specFinal (d : DSt) : Option String := Id.run do
     if kvGet (stateOf d ep.name) "init" ≠ "1" then return some s!"{ep.name}: handshake not finished at the end"
   return none
 
-partial def go (C : Cfg) (d : DSt) : List String → Verdict
+/-- what differs between the properties that share this transcript format -/
+structure Hooks where
+  final : DSt → Option String
+  ev : DSt → Ev → Except String DSt
+  /-- endpoints (and the plain-peer flag) from a `setup` op line -/
+  setup : List (String × String) → List EpSt × String
+
+def setupC18 (m : List (String × String)) : List EpSt × String :=
+  let rsz := (kvGet m "rsz").toNat?.getD 4096
+  let shared := kvGet m "shared" == "1"
+  let plain := if kvGet m "plain" == "" then "none" else kvGet m "plain"
+  let ck := kvGet m "cli"
+  let sk := kvGet m "srv"
+  let c : EpSt := { name := "c", kind := ck, driver := if ck == "async" then "dc" else "", rsz := rsz }
+  let s : EpSt := { name := "s", kind := sk, driver := if sk == "async" then (if shared ∧ ck == "async" then "dc" else "ds") else "", rsz := rsz }
+  (if plain == "cli" then [s] else if plain == "srv" then [c] else [c, s], plain)
+
+partial def go (C : Cfg) (H : Hooks) (d : DSt) : List String → Verdict
   | [] =>
-    match specFinal d with
+    match H.final d with
     | some m => Verdict.spec m d.tags
     | none =>
       -- futures: model vs. observed
@@ -563,38 +598,40 @@ partial def go (C : Cfg) (d : DSt) : List String → Verdict
   | l :: rest =>
     let w := words l
     match w with
-    | [] => go C d rest
+    | [] => go C H d rest
     | "->" :: "crash" :: x => Verdict.spec ("crash: " ++ " ".intercalate x) d.tags
     | "->" :: "hang" :: x => Verdict.spec ("hang: " ++ " ".intercalate x) d.tags
+    | "->" :: "killed" :: x => Verdict.spec ("process killed by a signal: " ++ " ".intercalate x) d.tags
     | "->" :: "harness-error" :: x => Verdict.corr ("harness error: " ++ " ".intercalate x) d.tags
     | "->" :: "setup" :: "ok" :: kvs =>
       let m := kvOf kvs
-      go C { d with marker := (hexDecode (kvGet m "marker")).getD [], cpay := (hexDecode (kvGet m "cpay")).getD [],
-                    spay := (hexDecode (kvGet m "spay")).getD [] } rest
-    | "->" :: "loopend" :: r :: _ => go C { d with loopend := some r } rest
-    | "->" :: "wire" :: _ => go C { d with finals := (w.drop 1) :: d.finals } rest
-    | "->" :: "got" :: _ => go C { d with finals := (w.drop 1) :: d.finals } rest
-    | "->" :: "state" :: _ => go C { d with finals := (w.drop 1) :: d.finals } rest
-    | "->" :: "rawgot" :: _ => go C { d with finals := (w.drop 1) :: d.finals } rest
-    | "->" :: "rawsent" :: _ => go C { d with finals := (w.drop 1) :: d.finals } rest
+      let pay := fun (a b : String) => (hexDecode (if kvGet m a == "" then kvGet m b else kvGet m a)).getD []
+      let d := { d with marker := (hexDecode (kvGet m "marker")).getD [], cpay := pay "cpay" "xpay", spay := pay "spay" "ppay" }
+      go C H d rest
+    | "->" :: "loopend" :: r :: _ => go C H { d with loopend := some r } rest
+    | "->" :: "wire" :: _ => go C H { d with finals := (w.drop 1) :: d.finals } rest
+    | "->" :: "got" :: _ => go C H { d with finals := (w.drop 1) :: d.finals } rest
+    | "->" :: "state" :: _ => go C H { d with finals := (w.drop 1) :: d.finals } rest
+    | "->" :: "rawgot" :: _ => go C H { d with finals := (w.drop 1) :: d.finals } rest
+    | "->" :: "rawsent" :: _ => go C H { d with finals := (w.drop 1) :: d.finals } rest
     | "->" :: ev =>
       let e := parseEv ev
-      match specEv d e with
+      match H.ev d e with
       | .error m => Verdict.spec m d.tags
       | .ok d =>
         -- route the event to the API block it belongs to
         match e with
         | .api who op args =>
           if op == "step" then
-            go C { d with dopen := (who, (args.head?.bind String.toInt?).getD 0, {}) :: d.dopen.filter (·.1 != who) } rest
+            go C H { d with dopen := (who, (args.head?.bind String.toInt?).getD 0, {}) :: d.dopen.filter (·.1 != who) } rest
           else match d.ep? who with
-            | some ep => go C (d.setEp { ep with open_ := some (op, args, {}) }) rest
-            | none => go C d rest
+            | some ep => go C H (d.setEp { ep with open_ := some (op, args, {}) }) rest
+            | none => go C H d rest
         | .ret who r =>
           match d.dopen.find? (·.1 == who) with
           | some (_, _, b) =>
             let d := { d with dopen := d.dopen.filter (·.1 != who) }
-            go C (runStep C d who b r) rest
+            go C H (runStep C d who b r) rest
           | none =>
             match d.ep? who with
             | some ep =>
@@ -603,60 +640,58 @@ partial def go (C : Cfg) (d : DSt) : List String → Verdict
                 let (cmp, ep', tg) := runSync C ep op args b r
                 let d := d.setEp { ep' with open_ := none }
                 let d := { d with tags := tg ++ d.tags }
-                go C (match cmp with | some m => d.noteCorr s!"{who} {op} {" ".intercalate args}: {m}" | none => d) rest
-              | none => go C d rest
-            | none => go C d rest
+                go C H (match cmp with | some m => d.noteCorr s!"{who} {op} {" ".intercalate args}: {m}" | none => d) rest
+              | none => go C H d rest
+            | none => go C H d rest
         | .dpoll t res fds =>
           -- belongs to the driver whose step is open and that owns one of the listed sockets
           let owner := d.dopen.find? fun (dn, _, _) =>
             fds.any (fun f => (d.eps.any fun ep => ep.name == f.1 ∧ ep.driver == dn)) ∨ d.dopen.length == 1
           match owner with
           | some (dn, to, b) =>
-            go C { d with dopen := (dn, to, { b with dpoll := some (t, res, fds) }) :: d.dopen.filter (·.1 != dn) } rest
-          | none => go C d rest
+            go C H { d with dopen := (dn, to, { b with dpoll := some (t, res, fds) }) :: d.dopen.filter (·.1 != dn) } rest
+          | none => go C H d rest
         | .enq who n =>
           match d.ep? who with
           | some ep =>
             let x := enqueue (σ := Rep) (ω := RW) { a := ep.a, s := ep.st } (zeros n)
-            go C { (d.setEp { ep with a := x.a }) with tags := "enq" :: d.tags } rest
-          | none => go C d rest
-        | .fut who _ ok =>
+            go C H { (d.setEp { ep with a := x.a }) with tags := "enq" :: d.tags } rest
+          | none => go C H d rest
+        | .fut who _ res =>
           match d.ep? who with
-          | some ep => go C (d.setEp { ep with futSeen := ep.futSeen ++ [ok] }) rest
-          | none => go C d rest
-        | .other _ => go C d rest
+          | some ep =>
+            -- only promises the driver resolved are the model's business (broken ones die with the socket)
+            if res == "ok" ∨ res == "exn" then go C H (d.setEp { ep with futSeen := ep.futSeen ++ [res == "ok"] }) rest
+            else go C H d rest
+          | none => go C H d rest
+        | .other _ => go C H d rest
         | ev =>
           -- ssl / bio / os / rx / disc: into the open block of the endpoint (sync) or of its driver (async)
           let who := match ev with
             | .ssl w _ _ => w | .sslret w _ _ => w | .sslexn w => w | .bio w _ => w | .os w _ => w
-            | .rx w _ => w | .disc w => w | _ => ""
+            | .rx w _ => w | .disc w _ => w | _ => ""
           match d.ep? who with
-          | none => go C d rest
+          | none => go C H d rest
           | some ep =>
             if ep.kind == "async" then
               match d.dopen.find? (·.1 == ep.driver) with
-              | some (dn, to, b) => go C { d with dopen := (dn, to, b.add ev) :: d.dopen.filter (·.1 != dn) } rest
-              | none => go C d rest
+              | some (dn, to, b) => go C H { d with dopen := (dn, to, b.add ev) :: d.dopen.filter (·.1 != dn) } rest
+              | none => go C H d rest
             else
               match ep.open_ with
-              | some (op, args, b) => go C (d.setEp { ep with open_ := some (op, args, b.add ev) }) rest
-              | none => go C d rest
+              | some (op, args, b) => go C H (d.setEp { ep with open_ := some (op, args, b.add ev) }) rest
+              | none => go C H d rest
     | "setup" :: kvs =>
       let m := kvOf kvs
-      let rsz := (kvGet m "rsz").toNat?.getD 4096
-      let shared := kvGet m "shared" == "1"
-      let plain := if kvGet m "plain" == "" then "none" else kvGet m "plain"
-      let ck := kvGet m "cli"
-      let sk := kvGet m "srv"
-      let c : EpSt := { name := "c", kind := ck, driver := if ck == "async" then "dc" else "", rsz := rsz }
-      let s : EpSt := { name := "s", kind := sk, driver := if sk == "async" then (if shared ∧ ck == "async" then "dc" else "ds") else "", rsz := rsz }
-      let eps := if plain == "cli" then [s] else if plain == "srv" then [c] else [c, s]
-      go C { d with eps := eps, setup := m, plain := plain,
-                    tags := s!"pair.{if plain == "cli" then "plain" else ck}.{if plain == "srv" then "plain" else sk}" :: d.tags } rest
-    | _ => go C d rest
+      let (eps, plain) := H.setup m
+      go C H { d with eps := eps, setup := m, plain := plain,
+                      tags := s!"pair.{"+".intercalate (eps.map fun e => (if e.tls then "tls-" else "plain-") ++ e.kind)}" :: d.tags } rest
+    | _ => go C H d rest
 
-def runCase (body : List String) : Verdict := go Cfg.current {} body
+def hooksC18 : Hooks := { final := specFinal, ev := specEv, setup := setupC18 }
+
+def runCase (body : List String) : Verdict := go Cfg.current hooksC18 {} body
 /-- the model before 319faf2 (a Receive that timed out leaves WANT_READ cached) -/
-def runCaseLegacyRecv (body : List String) : Verdict := go Cfg.legacyRecvReset {} body
+def runCaseLegacyRecv (body : List String) : Verdict := go Cfg.legacyRecvReset hooksC18 {} body
 
 end SockModel.Drive.C18
